@@ -183,9 +183,10 @@ func (x *c09) fault(m *mcontract, f Fault, op C09Op) error {
 	case "append":
 		var roots, knownRoots []types.Hash256
 		for _, k := range op.Roots {
-			roots = append(roots, rootOf(k))
-			if known(k) {
-				knownRoots = append(knownRoots, rootOf(k))
+			rt, ok := x.rootFor(k)
+			roots = append(roots, rt)
+			if ok {
+				knownRoots = append(knownRoots, rt)
 			}
 		}
 		if len(roots) == 0 {
@@ -286,14 +287,31 @@ func (x *c09) fault(m *mcontract, f Fault, op C09Op) error {
 		}
 	case "write":
 		token := x.R.Token(x.AcctKeys[0])
-		data := make([]byte, 4*proto4.LeafSize)
+		// every upload of a case carries different bytes (and a different length)
+		x.writeSeq++
+		seq := x.writeSeq
+		data := make([]byte, []int{4, 1, 64, 7, 1024}[seq%5]*proto4.LeafSize)
 		for i := range data {
-			data[i] = byte(i + 1)
+			data[i] = byte(i*7 + seq*13 + 1)
 		}
 		r := x.R.Write(x.Prices, token, data, uint64(len(data)), script)
 		res = r.Result
 		commit = func() error {
 			x.Bal[0] = x.Bal[0].Sub(x.Prices.RPCWriteSectorCost(uint64(len(data))).RenterCost())
+			// the host had every byte: the sector is stored under the root of
+			// the padded data (computed here with core), whether or not the
+			// renter read the answer
+			sector := new([proto4.SectorSize]byte)
+			copy(sector[:], data)
+			root := proto4.SectorRoot(sector)
+			if r.Done && r.Root != root {
+				return fmt.Errorf("%s: host answered root %v, the padded data hashes to %v", what, r.Root, root)
+			}
+			x.uploads = append(x.uploads, upload{root: root, data: data})
+			x.cs.Class("upload-stored")
+			if !r.Done {
+				x.cs.Class("upload-stored-answer-unread")
+			}
 			return nil
 		}
 	case "form":
@@ -606,6 +624,19 @@ func TestC09Faults(t *testing.T) {
 			forAll("append", func(f Fault) { add(size, f, C09Op{Roots: roots}) })
 		}
 	}
+	// uploads: every abort point of RPCWriteSector, then further uploads (other
+	// bytes), then the sectors of this case - also the one whose answer was
+	// never read - are appended, listed and EVERY listed sector is read back
+	for _, p := range append(faultPoints("write"), faultPoint{}) {
+		for _, later := range []int{1, 2, 9} {
+			ops := []C09Op{{Op: "fault", Fault: &Fault{Kind: "write", AbortAt: p.AbortAt, Mode: p.Mode}}}
+			for i := 0; i < later; i++ {
+				ops = append(ops, C09Op{Op: "write"})
+			}
+			ops = append(ops, C09Op{Op: "append", Roots: []int{1000, 1001, 3}}, C09Op{Op: "append", Roots: []int{1002, 1000 + later}}, C09Op{Op: "roots", Len: -1})
+			cases = append(cases, C09Case{Sizes: []int{1}, Ops: ops, ReadAll: true, Leaf: 0})
+		}
+	}
 	for _, kind := range []string{"replenish-accounts", "replenish-pools", "fund", "roots", "write", "form", "renew", "refresh-full", "refresh-partial"} {
 		for _, size := range []int{0, 2} {
 			if size == 0 && (kind == "roots") {
@@ -631,6 +662,6 @@ func TestC09Faults(t *testing.T) {
 			cases = append(cases, C09Case{Sizes: []int{size}, Ops: []C09Op{{Op: kind}, {Op: "append", Roots: []int{12}}, {Op: "free", Idx: []int{0}}, {Op: "roots", Len: -1}}})
 		}
 	}
-	rule := fmt.Sprintf("fault enumeration: {append, free (every non-empty subset), replenish accounts, replenish pools, fund, sector roots, write, form, renew, refresh full, refresh partial} x {close before each renter step, host deadline fires while it waits for the renter, half a message then close} + {random signature, signature over another revision number, signature by another key} at the signing point + for form / renew / refresh {renter input signatures invalid, renter inputs double-spent through the pool right before the signatures are sent} (every handler check passes, the pool rejects the finished set), on contracts of 0..%d sectors; plus honest renew / refresh followed by a free of each position (or an append) as the first root-changing RPC on the renewal, with the renewed contract kept in every by-value comparison; afterwards an honest append, free and full root listing on the same (or renewed) contract, then the same three against the original contract id (refused if it was renewed)", maxSize)
+	rule := fmt.Sprintf("fault enumeration: {uploads abandoned at every point (incl. after all data, answer unread) followed by 1, 2 or 9 further uploads, appends of the uploaded roots and a byte-wise read-back of every listed sector; append, free (every non-empty subset), replenish accounts, replenish pools, fund, sector roots, write, form, renew, refresh full, refresh partial} x {close before each renter step, host deadline fires while it waits for the renter, half a message then close} + {random signature, signature over another revision number, signature by another key} at the signing point + for form / renew / refresh {renter input signatures invalid, renter inputs double-spent through the pool right before the signatures are sent} (every handler check passes, the pool rejects the finished set), on contracts of 0..%d sectors; plus honest renew / refresh followed by a free of each position (or an append) as the first root-changing RPC on the renewal, with the renewed contract kept in every by-value comparison; afterwards an honest append, free and full root listing on the same (or renewed) contract, then the same three against the original contract id (refused if it was renewed)", maxSize)
 	runDirect(t, rule, cases)
 }
